@@ -20,6 +20,7 @@ EXPLANATION = (
     "inside a Lua short string, identifiers used as bare field / global names versus Lua's reserved words, variant names "
     "and numbers; (NO-EXPR-STATEMENT) ops whose value is unused are dropped and calls are always bound to a local."
     " (CTX, GUARD, LOOP-LABEL) `break` / `goto` are emitted only where legal: the checker's inside_loop flag is true exactly for a loop's body and reset by function literals, and the lowering hands the body the label that the loop itself writes."
+    ' (BUDGET) the number of Lua locals per function and the nesting depth of inlined expressions are bounded independently of source length (both obligations fail: known findings).'
 )
 UNDECIDED = ("Lua's resource limits (200 locals per function, 60 upvalues, constant table size, nesting depth): they depend on "
              "program size and no template-level rule bounds them.")
@@ -79,9 +80,35 @@ def run(F, rep, tier):
     lex_safe(F, rep, T)
     no_expr_statement(F, rep, T)
     loop_label(F, rep)
+    resource_budgets(F, rep, T)
 
 
 IRM = "sylt_compiler::intermediate::"
+
+
+def resource_budgets(F, rep, T):
+    """Lua refuses to load a function with more than 200 active locals and an expression nested deeper than 200 levels
+    (`too many local variables`, `chunk has too many syntax levels`).  The property quantifies over function sizes, so
+    both quantities must be bounded independently of the length of the source: locals by scoping the temporaries of a
+    statement in a block, nesting by a cap on inlining."""
+    declaring = sorted(n for n, s_ in T.S.items() if (s_["text_many"] or "").startswith("local "))
+    scoped = any((s_["text_many"] or "").strip() == "do" for s_ in T.S.values())
+    rep.ob("BUDGET", "locals-per-function", scoped or not declaring,
+           "statement temporaries are scoped in do .. end blocks" if scoped else
+           "%d IR ops write `local ..` straight into the enclosing function body (%s ..) and no op opens a plain `do` block: "
+           "every variable read, call and temporary stays live until the function ends, so a body of about 70 ordinary "
+           "statements (or 125 top-level definitions next to the standard library's 80) has more than 200 locals and the chunk "
+           "does not load" % (len(declaring), ", ".join(declaring[:6])), sites=len(declaring))
+    lua = F.fn("sylt_compiler::lua::Generator::expand") if "sylt_compiler::lua::Generator::expand" in F.fns else None
+    capped = False
+    if lua is not None:
+        capped = any(prm["ty"].strip() in ("usize", "u32") for prm in lua["params"]) or \
+            any(x.get("k") == "Field" and x["name"] in ("depth", "nesting") for x in nodes(fn_body(lua)))
+    rep.ob("BUDGET", "inline-nesting-depth", capped,
+           "inlining into a use is capped by a depth counter" if capped else
+           "a value used once is inlined into its use as text, recursively and without a depth limit: a flat chain "
+           "`1 + 1 + .. + 1` of 210 operators becomes `__ADD(__ADD(..` nested 210 deep, past Lua's limit of 200 syntax levels",
+           (lua or {}).get("sp"))
 
 
 def loop_label(F, rep):
